@@ -273,7 +273,7 @@ func c06Batch(c *core.Ctx, rng *rand.Rand, batch int, withFree bool, oddDir bool
 		if withFree && rng.Intn(7) == 0 {
 			// idempotence only (C07): the parseable-but-awkward shapes of C19 (grouped and local type
 			// declarations, fields without a literal, malformed @tag text, backquote values ...)
-			k := []string{"no-literal", "malformed-tag", "grouped", "grouped", "interpreted-literal", "empty-literal", "backquote-value", "cr-in-literal", "crlf", "bom", "bom", "multiline-block", "odd-literal", "odd-literal", "line-directive"}[rng.Intn(15)]
+			k := []string{"no-literal", "malformed-tag", "grouped", "grouped", "interpreted-literal", "empty-literal", "backquote-value", "cr-in-literal", "crlf", "bom", "bom", "multiline-block", "odd-literal", "odd-literal", "line-directive", "dup-key-literal", "dup-key-literal", "no-literal"}[rng.Intn(18)]
 			src, cl = c19Awkward(rng, k), "AWK"+k
 		}
 		name := fmt.Sprintf("f%02d_%s.pb.go", i, strings.ToLower(cl))
@@ -486,7 +486,27 @@ func c19Awkward(rng *rand.Rand, kind string) string {
 			return base + d + "\ntype A struct {\n\tName string `json:\"name\"` // 姓名 @tag valid:\"required\"\n\tAge  int32 `json:\"age\"` // @tag valid:\"to=1~150\" form:\"age\"\n}\n\n" + good
 		}
 		return base + "type A struct {\n\tName string `json:\"name\"` // 姓名 @tag valid:\"required\"\n" + d + "\n\tAge  int32 `json:\"age\"` // @tag valid:\"to=1~150\" form:\"age\"\n}\n\n" + good
+	case "dup-key-literal":
+		// idempotence only: a literal that already repeats a key (hand-merged, or written by another tool); whichever
+		// occurrence the tool rewrites, it must be done after one run
+		f := []string{
+			"\tName string `json:\"name,omitempty\" json:\"nick\"` // @tag json:\"name\"\n",
+			"\tName string `json:\"b\" db:\"x\" json:\"c\"` // @tag db:\"y\" json:\"z\"\n",
+			"\tName string `valid:\"required\" json:\"n\" valid:\"to=1~3\"` // @tag valid:\"ge=1\" form:\"n\"\n",
+			"\tName string `json:\"a\" json:\"a\"` // @tag json:\"a\"\n",
+			"\tName string `json:\"a\" json:\"b\" json:\"c\"` // @tag json:\"c\"\n",
+		}[rng.Intn(5)]
+		return base + "type A struct {\n" + f + "\tAge  int32 `json:\"age\"` // @tag valid:\"ge=0\"\n}\n\n" + good
 	case "no-literal":
+		if rng.Intn(2) == 0 {
+			// ... with a remark after the pairs, in a block comment, before and after fields that have a literal
+			kv := []string{"valid:\"required\"", "valid:\"to=1~50\" form:\"size\"", "json:\"n,omitempty\""}[rng.Intn(3)]
+			cm := []string{"// @tag " + kv + " 每页条数", "/* @tag " + kv + " */", "// 备注 @tag " + kv + " // more", "/* 每页 @tag " + kv + " */ // x", "// @tag " + kv + "  "}[rng.Intn(5)]
+			if rng.Intn(2) == 0 {
+				return base + "type A struct {\n\tAge  int32 `json:\"age\"` // @tag valid:\"to=1~150\"\n\tSize int32 " + cm + "\n}\n\n" + good
+			}
+			return base + "type A struct {\n\tSize int32 " + cm + "\n\tAge  int32 `json:\"age\"` // @tag valid:\"to=1~150\"\n\tLast string " + cm + "\n}\n\n" + good
+		}
 		return base + "type A struct {\n\tName string // 姓名 @tag valid:\"required\"\n\tAge  int32 `json:\"age\"` // @tag valid:\"to=1~150\"\n}\n\n" + good
 	case "malformed-tag":
 		forms := []string{"@tag valid:required", "@tag :\"x\"", "@tag valid:\"", "@tag", "@tag valid:\"a\" @tag json:\"b\"", "@tagvalid:\"x\"", "@tag  ", "@tag desc:\"C:\\tmp\\", "@tag a:\"1\" b:\"x\\"}
